@@ -134,6 +134,19 @@ CLAIMED["C17"] = dict(
     technique="crash-point enumeration with a scripted clock; TLA+ product-construction clauses; trace validation by TLC",
 )
 
+CLAIMED["C11"] = dict(
+    category="model_checking",
+    text="ForestExtract.tla states the post-conditions of extraction over Productivity.tla (subset of inserted keys, productive for "
+         "the root, one rule per mentioned class, closed, unproductive if any single rule is removed, reverse rules only if needed). "
+         "TLC proves on all small universes that a minimal productive set is functional and closed and exports the pumping "
+         "universes; each, under several bucket assignments, and seeded random universes go through the real ForestRuleExtractor on "
+         "a real TableMethod; forest searches (reverse on/off, incl. a pack needing reverse rules) have their extraction and the "
+         "concrete rules handed out recorded; TLC judges every extraction.",
+    design_ref="DESIGN.md 3/C11",
+    note="Trusted: TLC; needed_rules is read from the extractor after _minimize; the independent fixed point decides productivity.",
+    technique="TLA+ spec + TLC model checking; replay of TLC-enumerated universes; trace validation by TLC",
+)
+
 NOT_YET = {}
 
 ALL = ["C%02d" % i for i in range(1, 21)]
